@@ -482,6 +482,7 @@ func runC16(c *Ctx) Info {
 	nFraming := c.orderFramingRule(fns)
 	nOwnerLen, nBytes := c.ownerLengthRule(fns)
 	nSink := c.ownerSinkRule(fns)
+	nHdr, hdrMissing := c.flowsHeaderRule(reach)
 	c.C.Floor("ORDER-FRAMING", nFraming-c.controlCount("ORDER-FRAMING"), 5)
 	// a marker constant handed to a helper (builder constructor, generic emitter): the segment is
 	// written through the generic emitter whose own length field is checked above
@@ -522,14 +523,18 @@ func runC16(c *Ctx) Info {
 	}
 	c.C.Floor("BYTES", nBytes-c.controlCount("BYTES"), 3)
 	c.C.Floor("OWNER-SINK", nSink-c.controlCount("OWNER-SINK"), 3)
-	for _, r := range []string{"ORDER-FRAMING", "BYTES", "OWNER-SINK"} {
+	c.C.Floor("FLOWS-HEADER", nHdr-c.controlCount("FLOWS-HEADER"), 20)
+	if len(hdrMissing) > 0 {
+		c.C.Note("FLOWS-HEADER: EncodeParams fields not found by name (no obligation generated): %v", hdrMissing)
+	}
+	for _, r := range []string{"ORDER-FRAMING", "BYTES", "OWNER-SINK", "FLOWS-HEADER"} {
 		c.C.ExpectControl(r)
 	}
 	return Info{
-		Explanation:  "ORDER-FRAMING: in every top-level encode function the start-marker write dominates every other write to the sink, the end-marker write dominates every nil-error return and nothing is written after it. OWNER-LENGTH: length-bearing JPEG markers are emitted only through Writer.WriteSegment (which computes len+2); a manual marker+length+payload sequence is handed to BYTES. BYTES: for every JPEG 2000 marker segment and SOT/Psot the bytes written between the marker and the next marker are counted symbolically (constant + len(x) terms, range loops multiplied) and compared with the expression stored in the length field. OWNER-SINK: an entropy coder's byte sink is discovered structurally — a field (io.Writer, bytes.Buffer, []byte) of a library struct, in encode-reachable code, for which some method of the struct both tests what it emits against 0xFF/0xFF00 and writes the field (Huffman, Golomb, packet-header bit writer, MQ coder, HT MEL/MagSgn/VLC writers); every function that writes such a field must apply that test itself or be a raw emit helper called only by functions that do.",
-		DoesNotCover: "that stuffing is arithmetically correct (MQ 0x8F rule), field order inside a header, marker codes inside packet bodies, TLM totals beyond the per-part expression, header fields equal to the arguments (NARROW / FLOWS-HEADER are reported under C17)",
+		Explanation:  "ORDER-FRAMING: in every top-level encode function the start-marker write dominates every other write to the sink, the end-marker write dominates every nil-error return and nothing is written after it. OWNER-LENGTH: length-bearing JPEG markers are emitted only through Writer.WriteSegment (which computes len+2); a manual marker+length+payload sequence is handed to BYTES. BYTES: for every JPEG 2000 marker segment and SOT/Psot the bytes written between the marker and the next marker are counted symbolically (constant + len(x) terms, range loops multiplied) and compared with the expression stored in the length field. OWNER-SINK: an entropy coder's byte sink is discovered structurally — a field (io.Writer, bytes.Buffer, []byte) of a library struct, in encode-reachable code, for which some method of the struct both tests what it emits against 0xFF/0xFF00 and writes the field (Huffman, Golomb, packet-header bit writer, MQ coder, HT MEL/MagSgn/VLC writers); every function that writes such a field must apply that test itself or be a raw emit helper called only by functions that do. FLOWS-HEADER: every integer argument of a package-level Encode function (and the geometry / precision / coding-style fields of jpeg2000.EncodeParams) that is consumed by arithmetic, allocation or indexing must have a data path (forward, field-based, context-insensitive value flow over the whole library) into a value stored or passed inside a function that emits a marker, or into image/jpeg.Encode: a header that cannot vary with an argument the coded data varies with cannot declare it.",
+		DoesNotCover: "that stuffing is arithmetically correct (MQ 0x8F rule), field order inside a header, marker codes inside packet bodies, TLM totals beyond the per-part expression, that a header field sits at the right offset or equals the argument exactly (FLOWS-HEADER decides dependence only; value-preserving narrowing is NARROW under C17)",
 		Trusted:      commonTrusted,
-		Extra:        map[string]any{"framing_functions": nFraming, "length_sites": nOwnerLen, "bytes_segments": nBytes, "sinks": nSink},
+		Extra:        map[string]any{"framing_functions": nFraming, "length_sites": nOwnerLen, "bytes_segments": nBytes, "sinks": nSink, "header_flow_sources": nHdr},
 	}
 }
 
